@@ -37,6 +37,9 @@ type c37Case struct {
 	Ops     []c37Op `json:"ops"`
 	Burst   int     `json:"burst,omitempty"`   // >0: scenario with that many Adds between two ticks
 	BurstD  int     `json:"burst_d,omitempty"` // delay of the filler Adds of the burst (0: 1+i%7)
+	// BurstRemove: after the burst has filled the pipeline, the 10 pre-registered keys are
+	// removed ("remove") or removed and registered again ("readd") instead of refreshed
+	BurstRemove string `json:"burst_remove,omitempty"`
 }
 
 type c37Fire struct {
@@ -49,6 +52,7 @@ type c37Reg struct {
 	due         int64
 	state       string // live | superseded | removed | fired
 	overflowAdd bool   // made while more operations were pending than the pipeline holds
+	overflowDel bool   // removed while the pipeline was full
 }
 
 type c37Rig struct {
@@ -156,10 +160,11 @@ func (r *c37Rig) empty() (bool, string) {
 }
 
 type c37Fail struct {
-	Clause string
-	Detail string
-	D      int
-	Over   bool
+	Clause  string
+	Detail  string
+	D       int
+	Over    bool
+	OverDel bool
 }
 
 func c37DelayClass(d, n int) string {
@@ -211,7 +216,7 @@ func c37Exec(r *c37Rig, ops []c37Op, st *c37Stats) *c37Fail {
 			case g.state == "superseded":
 				return &c37Fail{Clause: "superseded-registration-ran", D: g.d, Over: c37AnyOverflow(regs, g.key), Detail: fmt.Sprintf("key %d: registration #%d (delay %d, due tick %d) ran in tick %d although the key was registered again", g.key, f.reg, g.d, g.due, now)}
 			case g.state == "removed":
-				return &c37Fail{Clause: "removed-registration-ran", D: g.d, Over: g.overflowAdd, Detail: fmt.Sprintf("key %d: registration #%d (delay %d) ran in tick %d although the key was removed", g.key, f.reg, g.d, now)}
+				return &c37Fail{Clause: "removed-registration-ran", D: g.d, Over: g.overflowAdd, OverDel: g.overflowDel, Detail: fmt.Sprintf("key %d: registration #%d (delay %d) ran in tick %d although the key was removed", g.key, f.reg, g.d, now)}
 			case !exp[f.reg] && g.due > now:
 				return &c37Fail{Clause: "ran-early", D: g.d, Over: g.overflowAdd, Detail: fmt.Sprintf("key %d registration #%d with delay %d ticks, drained by tick %d, ran in tick %d, due %d", g.key, f.reg, g.d, g.due-int64(g.d), now, g.due)}
 			case !exp[f.reg]:
@@ -267,16 +272,30 @@ func c37Exec(r *c37Rig, ops []c37Op, st *c37Stats) *c37Fail {
 			}
 		case "del":
 			st.Dels++
-			if r.pending >= pipeCap {
-				// Remove blocks on a full pipeline; the scenario generator never does this
-				return &c37Fail{Clause: "harness/remove-on-full-pipeline"}
-			}
+			overDel := r.pending >= pipeCap
 			if old, ok := live[op.Key]; ok {
 				regs[old].state = "removed"
+				regs[old].overflowDel = overDel
 				delete(live, op.Key)
 			}
 			r.pending++
-			if err := r.tw.Remove(op.Key); err != nil {
+			if overDel {
+				// The pipeline is full and the wheel loop is parked: the real Remove blocks until the
+				// next tick drains the pipeline (the runtime hands a parked sender's item over with the
+				// first receive, so it is applied by that same tick). Issue it from its own goroutine
+				// and give it a moment to park; the pause only paces, the verdict (a removed
+				// registration never runs) does not depend on which tick applies the removal.
+				done := make(chan struct{})
+				key := op.Key
+				go func() {
+					r.tw.Remove(key)
+					close(done)
+				}()
+				select {
+				case <-done:
+				case <-time.After(5 * time.Millisecond):
+				}
+			} else if err := r.tw.Remove(op.Key); err != nil {
 				return &c37Fail{Clause: "remove-refused", Detail: err.Error()}
 			}
 		case "tick":
@@ -313,6 +332,9 @@ func c37AnyOverflow(regs []c37Reg, key int) bool {
 }
 
 func c37Sig(c c37Case, f *c37Fail) string {
+	if f.OverDel {
+		return f.Clause + "/remove-issued-on-full-pipeline"
+	}
 	if f.Over {
 		return f.Clause + "/add-issued-on-full-pipeline"
 	}
@@ -333,6 +355,25 @@ func c37Expand(c c37Case) []c37Op {
 		ops = append(ops, c37Op{Op: "add", Key: 100000 + k, D: 3})
 	}
 	ops = append(ops, c37Op{Op: "tick"})
+	if c.BurstRemove != "" {
+		// the pre-registered keys are due in tick 1+3 = 4, the removal is issued before tick 2
+		// on a pipeline that the filler Adds (due in tick 2+d) have just filled
+		for i := 0; i < c.Burst; i++ {
+			d := c.BurstD
+			if d == 0 {
+				d = 7
+			}
+			ops = append(ops, c37Op{Op: "add", Key: i, D: d})
+		}
+		for k := 0; k < 10; k++ {
+			ops = append(ops, c37Op{Op: "del", Key: 100000 + k})
+			if c.BurstRemove == "readd" {
+				ops = append(ops, c37Op{Op: "add", Key: 100000 + k, D: 9})
+			}
+		}
+		ops = append(ops, c37Op{Op: "tick"})
+		return ops
+	}
 	for i := 0; i < c.Burst; i++ {
 		if i >= c.Burst-10 {
 			ops = append(ops, c37Op{Op: "add", Key: 100000 + (i - (c.Burst - 10)), D: 5})
@@ -536,6 +577,10 @@ func TestVerif_C37(t *testing.T) {
 		runOne(c37Case{Buckets: nb, Burst: 5000})
 		runOne(c37Case{Buckets: nb, Burst: 5000, BurstD: 7}) // the refreshes at the end of the burst are the first to matter
 		runOne(c37Case{Buckets: nb, Burst: 4000})            // below the pipeline capacity: must hold exactly
+		// the burst fills the pipeline exactly (no Add is lost), then sessions are removed
+		runOne(c37Case{Buckets: nb, Burst: 4096, BurstD: 7, BurstRemove: "remove"})
+		runOne(c37Case{Buckets: nb, Burst: 4096, BurstD: 7, BurstRemove: "readd"})
+		runOne(c37Case{Buckets: nb, Burst: 5000, BurstD: 7, BurstRemove: "remove"})
 	}
 
 	for _, rg := range rigs {
